@@ -642,9 +642,16 @@ func genBufScenario(rng *rand.Rand, profile string, mode string) *BScenario {
 			slow = append(slow, BOp{K: "get", C: cs, Ctx: 1})
 		}
 		slow = append(slow, BOp{K: "commit", C: cs}, BOp{K: "get", C: cs, Ctx: 1}) // one more read, not committed
-		// the third consumer reads nothing: the forced trim leaves it behind
+		// the third consumer commits nothing: the forced trim leaves its committed position behind; sometimes it has read
+		// (without committing) up to beyond where the trim will land - its next value is then still retained
 		sc.Setup = append(sc.Setup, fast...)
 		sc.Setup = append(sc.Setup, slow...)
+		straddle := rng.Intn(2) == 0
+		if straddle {
+			for i := 0; i < mx-rng.Intn(2); i++ {
+				sc.Setup = append(sc.Setup, BOp{K: "get", C: ci, Ctx: 1})
+			}
+		}
 		sc.Setup = append(sc.Setup, BOp{K: "put", N: 1}) // size > max: forced trim down to target
 		pokes := []BOp{}
 		for i := 0; i < 4+rng.Intn(5); i++ {
@@ -652,7 +659,11 @@ func genBufScenario(rng *rand.Rand, profile string, mode string) *BScenario {
 		}
 		sc.Drivers = append(sc.Drivers, pokes)
 		sc.Drivers = append(sc.Drivers, []BOp{{K: "nop", N: rng.Intn(8)}, {K: "rollback", C: cs}, {K: "get", C: cs, Ctx: 1}, {K: "get", C: cs, Ctx: 1}, {K: "diff", C: cs}, {K: "size"}})
-		sc.Drivers = append(sc.Drivers, []BOp{{K: "nop", N: rng.Intn(8)}, {K: "get", C: ci, Ctx: 1}, {K: "diff", C: ci}, {K: "get", C: cf, Ctx: 1}})
+		last := []BOp{{K: "nop", N: rng.Intn(8)}, {K: "get", C: ci, Ctx: 1}, {K: "diff", C: ci}, {K: "get", C: cf, Ctx: 1}}
+		if straddle {
+			last = append(last, BOp{K: "get", C: ci, Ctx: 1}, BOp{K: "rollback", C: ci}, BOp{K: "get", C: ci, Ctx: 1})
+		}
+		sc.Drivers = append(sc.Drivers, last)
 		sc.Small = true
 		return sc
 	}
